@@ -52,15 +52,16 @@ PROPOSED_FIX = r'''
         while (*value) {
             const char *v;
             int enc = 0;
-            while (*value == ' ' || *value == ',') ++value;
+            while (*value == ' ' || *value == '\t' || *value == ',') ++value;
             v = value;
-            while (*value!=' ' && *value!=',' && *value!=';' && *value!='\0')
+            while (*value!=' ' && *value!='\t' && *value!=',' && *value!=';'
+                   && *value!='\0')
                 ++value;
             switch (value - v) {
               /* ... unchanged ladder, but with `enc = HTTP_ACCEPT_ENCODING_X;`
                *     instead of `accept_encoding |= HTTP_ACCEPT_ENCODING_X;` ... */
             }
-            while (*value == ' ') ++value;
+            while (*value == ' ' || *value == '\t') ++value;
             while (*value == ';') {
                 /* parameters; weight "q=0" ("q=0." "q=0.0" "q=0.00" "q=0.000")
                  * means "not acceptable" (RFC 9110 12.4.2, 12.5.3) */
@@ -235,6 +236,11 @@ def canon(out):
             if x.startswith("F:") and ":z" in x:
                 f, vt, lab, z = x[2:].split(":", 3)
                 lst.append("F:%s:%s:%s:%s" % (f, vt, lab, _zdec(lab, z)))
+            elif x.startswith("T:") and ":z" in x:
+                f, vt, lab, pid, z = x[2:].split(":", 4)
+                d = _zdec(lab, z)
+                lst.append("T:%s:%s:%s:%s:%s" % (f, vt, lab, pid, "full:" + d if d.startswith("d") else
+                                                "part:%d" % (0 if z == "z-" else (len(z) - 1) // 2)))
             else:
                 lst.append(x)
         return " ".join(res + ["|"] + sorted(lst))
